@@ -25,6 +25,8 @@ Inductive obs :=
 Inductive case :=
   (** [real]: built by NewForward over loopback UDP servers (deadlines and goroutines
       are then not observable) / by VerifNewForward over in-memory upstreams.
+      [qlen]: bytes of this call's packed query (sizes around the 8191 byte scratch
+      buffer of pool.PackBuffer and up to 65535 are part of the cases).
       [n] upstreams, entry [s], configured concurrency [c]; [ordered]: events were
       applied one after the other (each worker seen to finish before the next
       event) / all at once. Observed: the upstream index of every ExchangeContext
@@ -34,7 +36,7 @@ Inductive case :=
       returned and the query buffer went back to the pool), the whole seconds of the upstream deadlines seen from before
       the call (floor) and from inside the upstream (ceil), the outcome, and the
       number of worker goroutines still alive at the end. *)
-| CRun (real : bool) (n : nat) (s : sel) (c : Z) (ordered : bool) (calls : list nat) (pay_ok : bool)
+| CRun (real : bool) (qlen : N) (n : nat) (s : sel) (c : Z) (ordered : bool) (calls : list nat) (pay_ok : bool)
        (dl : option (Z * Z)) (evs : list ev) (o : obs) (stuck : nat)
   (** QuickConfigureExec on a tag list that does / does not contain an unknown tag *)
 | CQuickErr (n : nat) (bad_tag : bool) (err : bool).
@@ -99,7 +101,7 @@ Definition secs (t : Z) : Z := (t / 1000000000)%Z.
 
 Definition agree (x : case) : bool :=
   match x with
-  | CRun real n s c ordered calls pay_ok dl evs o stuck =>
+  | CRun real qlen n s c ordered calls pay_ok dl evs o stuck =>
     let m := length (effective n (sel_sub s)) in
     let arr := arrivals evs in
     (if m =? 0 then match calls with [] => true | _ => false end
@@ -152,7 +154,7 @@ Definition spec_outcome (cc : nat) (arr : list arrival) : option obs :=
 
 Definition spec (x : case) : bool :=
   match x with
-  | CRun real n s c ordered calls pay_ok dl evs o stuck =>
+  | CRun real qlen n s c ordered calls pay_ok dl evs o stuck =>
     let ps := match s with SQuick sub => sub | _ => seq 0 n end in
     let m := length ps in
     let cc := spec_cc c in
@@ -188,7 +190,8 @@ Definition spec (x : case) : bool :=
   end.
 
 (** ** nontrivial: at least two workers and a bad outcome arriving before a good
-    one, or a context cancellation among the events, or a wrap-around. *)
+    one, or a context cancellation among the events, or a wrap-around, or a query that
+    does not fit the packing scratch buffer. *)
 Fixpoint bad_then_good (seen_bad : bool) (arr : list arrival) : bool :=
   match arr with
   | [] => false
@@ -199,10 +202,11 @@ Fixpoint bad_then_good (seen_bad : bool) (arr : list arrival) : bool :=
 
 Definition nontrivial (x : case) : bool :=
   match x with
-  | CRun real n s c ordered calls pay_ok dl evs o stuck =>
+  | CRun real qlen n s c ordered calls pay_ok dl evs o stuck =>
     let m := length (effective n (sel_sub s)) in
     let arr := arrivals evs in
     ((2 <=? spec_cc c) && (bad_then_good false arr || existsb is_ctx arr))
     || ((m <? spec_cc c) && (0 <? m))
+    || ((8190 <? qlen)%N && (0 <? m))
   | CQuickErr _ _ _ => false
   end.
